@@ -164,15 +164,28 @@ fn cli_path(c: &Value, stage: &dyn Fn(&str)) -> Result<Value, Value> {
     let schema_output = config.generate.schema_output.as_ref().map(|o| root_dir.join(o)).unwrap_or_else(|| root_dir.join("out/schema.d.ts"));
     let schema_mapper: Vec<usize> = (0..store.len()).map(|i| if i < schema_len { i } else { usize::MAX }).collect();
     let mut bytes = 0usize;
-    bytes += guard(stage, "SchemaTypePrinter", || {
+    // the printers are independent of each other: a panic of one does not hide the others
+    let mut panics: Vec<Value> = vec![];
+    macro_rules! collect {
+        ($r:expr, $default:expr) => {
+            match $r {
+                Ok(v) => v,
+                Err(p) => {
+                    panics.push(p["panic"].clone());
+                    $default
+                }
+            }
+        };
+    }
+    bytes += collect!(guard(stage, "SchemaTypePrinter", || {
         let mut writer = SourceWriter::new();
         writer.set_file_index_mapper(schema_mapper.clone());
         let mut printer = SchemaTypePrinter::new(SchemaTypePrinterOptions::from_config(&config), &mut writer);
         let r = printer.print_document(&resolved).is_ok();
         let b = writer.into_buffers();
         b.buffer.len() + b.source_map.len() + r as usize
-    })?;
-    bytes += guard(stage, "ResolverTypePrinter", || {
+    }), 0);
+    bytes += collect!(guard(stage, "ResolverTypePrinter", || {
         let mut writer = SourceWriter::new();
         writer.set_file_index_mapper(schema_mapper.clone());
         let mut options = ResolverTypePrinterOptions::from_config(&config);
@@ -182,7 +195,7 @@ fn cli_path(c: &Value, stage: &dyn Fn(&str)) -> Result<Value, Value> {
         let r = printer.print_document(&resolved, &plugins).is_ok();
         let b = writer.into_buffers();
         b.buffer.len() + b.source_map.len() + r as usize
-    })?;
+    }), 0);
     for (path, doc, file_index) in resolved_ops.iter() {
         let used_files: BTreeSet<usize> = doc.definitions.iter().map(|def| def.position().file).chain(std::iter::once(*file_index)).collect();
         let mut next_source_index = schema_len;
@@ -207,27 +220,36 @@ fn cli_path(c: &Value, stage: &dyn Fn(&str)) -> Result<Value, Value> {
             });
             p
         };
-        let buffers = guard(stage, "print_types_for_operation_document", || {
+        let buffers = match guard(stage, "print_types_for_operation_document", || {
             let mut writer = SourceWriter::new();
             writer.set_file_index_mapper(file_indices.clone());
             let mut options = OperationTypePrinterOptions::from_config(&config);
             options.schema_source = config.generate.schema_module_specifier.clone().unwrap_or_else(|| relative_path(&decl_file_path, &schema_output).to_string_lossy().to_string());
             print_types_for_operation_document(options, &schema, doc, &mut writer);
             writer.into_buffers()
-        })?;
+        }) {
+            Ok(b) => b,
+            Err(p) => {
+                panics.push(p["panic"].clone());
+                SourceWriter::new().into_buffers()
+            }
+        };
         bytes += buffers.buffer.len();
-        bytes += guard(stage, "print_source_map_json", || {
+        bytes += collect!(guard(stage, "print_source_map_json", || {
             let source_files: Vec<&Path> = file_indices.iter().zip(store.iter()).filter(|(i, _)| **i != usize::MAX).map(|(_, (p, _, _))| p.as_path()).collect();
             let mut out = String::new();
             let _ = print_source_map_json(&decl_file_path, &source_files, &buffers.names, &buffers.source_map, &mut out);
             out.len()
-        })?;
-        bytes += guard(stage, "print_js_for_operation_document", || {
+        }), 0);
+        bytes += collect!(guard(stage, "print_js_for_operation_document", || {
             let mut out = String::new();
             let mut w = JustWriter::new(&mut out);
             print_js_for_operation_document(OperationJSPrinterOptions::from_config(&config), doc, &mut w);
             out.len()
-        })?;
+        }), 0);
+    }
+    if !panics.is_empty() {
+        return Err(json!({"panics": panics}));
     }
     Ok(json!({"outcome": "generated", "bytes": bytes}))
 }
